@@ -19,7 +19,7 @@ pub struct C09 {
 
 impl C09 {
     pub fn new() -> C09 {
-        C09 { since_dry: 0, dry_every: 10, pair_every: 1, since_pair: 0 }
+        C09 { since_dry: 0, dry_every: if thorough() { 5 } else { 10 }, pair_every: 1, since_pair: 0 }
     }
 }
 
